@@ -28,7 +28,7 @@ for pid in ALL:
         'evidence_file': 'evidence/%s.json' % pid,
         'replay_cmd_template': './check %s --replay {path}' % pid,
         'engine': 'lean-model+correspondence',
-        'level_claimed': {'category': 'proof', 'text': TEXT.get(pid, 'Lean 4 theorems about the hand-written model (%s), tied to /repo by a differential correspondence run on every check' % ', '.join(p.theorems)), 'design_ref': 'DESIGN.md §5 ' + pid},
+        'level_claimed': {'category': 'proof', 'text': TEXT.get(pid, 'Lean 4 theorems about the hand-written model (%s), tied to /repo by a differential correspondence run on every check' % ', '.join(t.rpartition('::')[2] for t in p.theorems)), 'design_ref': 'DESIGN.md §5 ' + pid},
         'level_note': NOTE.get(pid, 'Trusted: Lean kernel; axioms propext, Classical.choice, Quot.sound only; hand-written model lean/ADModel tied to the code by sampled correspondence (harness/), hook ASTRODENDRO_VERIF=1; NumPy primitives and IEEE rounding outside the exact dyadic domain are modelled, not verified.'),
         'technique': 'machine-checked proof in Lean 4 about a hand-written model + differential correspondence check of the model against the implementation',
     })
